@@ -283,6 +283,9 @@ func (k Keeper) InitateGaugesForDuration(ctx sdk.Context, triggerDuration time.D
 			receivedAmount, err := k.liquidityKeeper.TransferFundsForSwapFeeDistribution(ctx, gauge.AppId, poolID)
 			if err != nil {
 				logger.Info(fmt.Sprintf("error occurred while swap fee fund transfer, err : %s", err))
+				// what has just been distributed must be recorded even when this epoch's fees cannot be collected,
+				// otherwise the same deposit is paid out again at the next epoch
+				k.SetGauge(ctx, gauge)
 				continue
 			}
 			// in case of swap fee distribution denom change in params
